@@ -594,6 +594,30 @@ def c07_4(ck, prog):
     conn_id = rl.params[1]['id'] if len(rl.params) > 1 else None
     id2call = {c['id']: c for b, i, c in rl.calls()}
     nrem = [0]
+    # a parameter may carry the departing connection's name if every caller passes bus_connection_get_name of
+    # the very connection it passes as the departing one
+    name_params = set()
+    conn_idx = 1
+    for k, prm in enumerate(rl.params):
+        if k == conn_idx or 'char' not in (prm.get('t') or ''):
+            continue
+        sites = [(f, c) for (f, b, i, c) in prog.call_sites(rl.name) if prog.is_production(f)]
+        okp = bool(sites)
+        for f, c in sites:
+            if len(c['args']) <= max(k, conn_idx):
+                okp = False
+                continue
+            a = c['args'][k]
+            src = a if is_call(a, 'bus_connection_get_name') else None
+            if src is None and is_ref(a):
+                ds = [rhs for b, i, ev in f.events() for lhs, how, rhs in written_lvalues(ev)
+                      if is_ref(lhs) and lhs.get('id') == a.get('id') and rhs is not None and how in ('=', 'decl')]
+                if len(ds) == 1 and is_call(ds[0], 'bus_connection_get_name'):
+                    src = ds[0]
+            if src is None or not src['args'] or not same_expr(src['args'][0], c['args'][conn_idx]):
+                okp = False
+        if okp:
+            name_params.add(prm['id'])
 
     def akey(atom, resolve):
         if atom[0] == 'cmp' and atom[1] == '==':
@@ -614,6 +638,9 @@ def c07_4(ck, prog):
                 if c.get('callee') != 'strcmp' or ctx.result_known(cid) is not False:
                     continue
                 for a in c['args']:
+                    if is_ref(a) and a.get('kind') == 'param' and a.get('id') in name_params:
+                        named = True
+                        continue
                     o = ctx.origin_call(a)
                     if o is not None and id2call.get(o[0], {}).get('callee') == 'bus_connection_get_name':
                         g = id2call[o[0]]
